@@ -33,7 +33,7 @@ REQUIRED_COUNTERS = {'program_runs': 100, 'associates_removed': 50, 'association
 ASSUMPTIONS = ['gfortran 12 -O0 with run-time checks is the reference semantics',
                'generated programs are well-defined by construction (original must compile and run clean, else the case is discarded as inconclusive)',
                'real outputs compared to relative 1e-11']
-BUDGET_S = {'quick': 1300, 'thorough': 3000}  # DEV
+BUDGET_S = {'quick': 400, 'thorough': 3000}
 CASE_TIMEOUT_S = 300
 
 MODES = ['resolve0', 'resolve1', 'merge', 'resolve0', 'trafo', 'resolve2', 'merge_resolve', 'trafo']
